@@ -47,7 +47,10 @@ def inner_texts(rng, tier):
            "select * from t where name = ''", "select 'it''s' from t", 'select @v, @@sv from t', "select 1.50, 007 from t",
            'select a,\n   b -- c\n from t\nwhere x = 1', 'select /* c */ a from (select b from u) s', 'select f(a, (b)) from t',
            "select a from t where b = 'x' and c = \"y\"", "select `a b`.c from t", 'select "a\\"b" from t',
-           "select '\\'' from t", "select a\n\n\nfrom t", "  select 1", "select 1   ", "select\t1"]
+           "select '\\'' from t", "select a\n\n\nfrom t", "  select 1", "select 1   ", "select\t1",
+           "(select a from t1 where b = 1) union (select a from t2 where c in (2, 3))", "(select 1)", "((select 1))",
+           "(select a from t) union all (select b from u)", "select a from t where b in (1, 2)", "(select a\n from t)\n union\n (select b\n\n from u)",
+           "select a -- c\n\n -- d\n from t", "select a\n\n  , b\n\n\n  from t where c = (1)"]
     base = [s for s in harvest()[D] if '(' not in s or s.count('(') == s.count(')')]
     rng.shuffle(base)
     out += [s for s in base[: (60 if tier == 'quick' else 400)] if s.lower().lstrip().startswith('select')]
